@@ -81,7 +81,23 @@ impl Report {
         let c = self.violation_counts.entry(sig.to_string()).or_insert(0);
         *c += 1;
         if *c <= MAX_VIOLATIONS_PER_SIG {
-            self.violations.push(Violation { sig: sig.to_string(), what: what.to_string(), case: case.to_string(), detail });
+            // witnesses of very long inputs stay readable and small: the replay regenerates the case anyway
+            fn clip(s: &str, max: usize) -> String {
+                if s.chars().count() <= max {
+                    s.to_string()
+                } else {
+                    format!("{} ... [{} characters]", s.chars().take(max).collect::<String>(), s.chars().count())
+                }
+            }
+            fn clip_j(j: J) -> J {
+                match j {
+                    J::Str(s) => J::Str(clip(&s, 8000)),
+                    J::Arr(v) => J::Arr(v.into_iter().map(clip_j).collect()),
+                    J::Obj(v) => J::Obj(v.into_iter().map(|(k, x)| (k, clip_j(x))).collect()),
+                    other => other,
+                }
+            }
+            self.violations.push(Violation { sig: sig.to_string(), what: clip(what, 4000), case: case.to_string(), detail: clip_j(detail) });
         }
     }
     pub fn floor(&mut self, name: &str, ok: bool) {
